@@ -1,0 +1,10 @@
+//go:build !verif
+// +build !verif
+
+package erpc
+
+// Verification hooks are compiled out unless the build tag `verif` is set.
+
+func verifGate(point string, s *session) {}
+
+func verifStatus(s *session, old, new int32) {}
